@@ -53,6 +53,7 @@ CLAUSES = {
     "amplitude envelopes of latitude and radius (partial: plain amplitude sums over years -2000..6000, weaker than the property's inclination + 0.05 deg / 1 % slack)": "proved [ideal, C07_envelope_partial: |B| <= nB/1e23 rad, |R - constant term| <= nR/1e23 AU with nB, nR computed by the kernel from the regenerated tables; on the current tree: Mercury 10.78 deg / 0.0997 AU, Venus 4.86 / 0.0066, Earth 0.0006 / 0.0220, Mars 3.28 / 0.2089, Jupiter 2.00 / 0.3521, Saturn 4.28 / 1.0537, Uranus 1.48 / 1.0589, Neptune 2.46 / 0.3275]",
     "agreement with Kepler's equation on the library's mean elements (0.1 deg Mercury-Mars, 1/2.5/1.5/1 deg Jupiter/Saturn/Uranus/Neptune, 1 % distance)": "unproved (searched)",
     "continuity at 1-second steps": "unproved (searched)",
+    "history independence of the evaluator (two nearby instants evaluated one after the other each give the direct sum at their own instant)": "searched (key nearby-epochs-direct-sum); the model is a pure function of (epoch, tables), so a memo shared between calls cannot be expressed - the translator refuses it (stage G) and this clause supplies the failing input",
     "binary64: evaluator vs exactly rounded direct sum, 1e-11 rad (B, R: everywhere; L: 1e-11 rad + 128 ulp of the unreduced angle, which reaches 1e5 rad where 1 ulp = 1.5e-11 rad)": "unproved (searched): rounding is outside the ideal instance",
 }
 
@@ -251,8 +252,9 @@ def check_epoch(cx, p, jde, full=True):
     except Exception as ex:
         cx.report("orbital-elements-raise", p, "%s raises %r" % (ecall, ex), jde, ecall); return
     cx.n += 2
-    T = (jde - 2451545.0) / 36525.0
-    t = (jde - 2451545.0) / 365250.0
+    jst = float(e.jde())                # the instant the object holds (Epoch(x) may store x one ulp off: property C02)
+    T = (jst - 2451545.0) / 36525.0
+    t = (jst - 2451545.0) / 365250.0
     # orbital_elements = cubic polynomials of the tables (independent evaluation)
     OE, OJ = m.ORBITAL_ELEM, m.ORBITAL_ELEM_J2000
     want = [poly(OE[0], T), poly(OE[1], T), poly(OE[2], T), poly(OE[3], T), poly(OE[4], T), poly(OE[5], T) - poly(OE[4], T)]
@@ -458,6 +460,38 @@ def check_continuity(cx, p, jde, dt_days):
                   % (float(b1) - float(b0), r1 - r0, dt, jde), jde, call)
 
 
+NEAR_DELTAS = (1e-9, 3e-9, 8e-9, 3e-8, 3e-7, 3e-6, 1e-5, 3e-4)   # days: 0.1 ms .. 26 s
+
+
+def check_near_pair(cx, p, jde, delta):
+    """two DIFFERENT instants delta days apart evaluated one after the other in this process: each
+    result is the direct sum at ITS OWN instant (an evaluator that answers the second call from what
+    it computed for the first - a memo keyed by a rounded epoch - fails only on such a pair)"""
+    m, cls = cx.planet(p)
+    e1 = cx.Epoch(jde); j1 = float(e1.jde())
+    e2 = cx.Epoch(j1 + delta); j2 = float(e2.jde())
+    if j2 == j1: return
+    name = "%s.geometric_heliocentric_position" % p
+    call = "(%s(Epoch(%r), False), %s(Epoch(%r), False))[1]" % (name, j1, name, j2)
+    try:
+        r1 = cls.geometric_heliocentric_position(e1, False)
+        r2 = cls.geometric_heliocentric_position(e2, False)
+    except Exception as ex:
+        cx.report("nearby-epochs-direct-sum", p, "%s raises %r" % (call, ex), j2, call); return
+    cx.n += 2; cx.nontriv += 1
+    for which, j, (lon, lat, r) in (("first", j1, r1), ("second", j2, r2)):
+        t = (j - 2451545.0) / 365250.0
+        dl, db, dr = direct_sum(m.VSOP87_L, t), direct_sum(m.VSOP87_B, t), direct_sum(m.VSOP87_R, t)
+        dev_l = abs(math.remainder(lon.rad() - dl, 2 * math.pi))
+        dev_b, dev_r = abs(lat.rad() - db), abs(r - dr)
+        if dev_l > 1e-11 or dev_b > 1e-11 or dev_r > 1e-11:
+            known = dev_l <= 64 * math.ulp(abs(dl)) and dev_b <= 1e-11 and dev_r <= 1e-11
+            cx.report("direct-sum-longitude-summation-rounding" if known else "nearby-epochs-direct-sum", p,
+                      "two instants %.3g day apart evaluated one after the other (JDE %r, then %r): the %s result is "
+                      "(%.3g rad, %.3g rad, %.3g AU) away from the direct sum of the tables at its own instant (> 1e-11)"
+                      % (j2 - j1, j1, j2, which, dev_l, dev_b, dev_r), j2, call)
+
+
 def search(rng, tier, deep):
     cx = Ctx()
     thorough = tier == "thorough"
@@ -465,6 +499,7 @@ def search(rng, tier, deep):
     n_epochs = 100 if not big else (400 if not thorough else 1500)
     n_seams = 3 if not big else 8
     n_cont = 12 if not big else 200
+    n_near = 8 if not big else 48
     lo, hi = jde_of_year(-2000), jde_of_year(4000)
     for p in PLANETS:
         check_constants(cx, p)
@@ -475,6 +510,9 @@ def search(rng, tier, deep):
             check_seam(cx, p, rng.uniform(lo, hi - 70000.0))
         for _ in range(n_cont):
             check_continuity(cx, p, rng.uniform(lo, hi - 1.0), 1.0 / 86400.0)
+        for k in range(n_near):
+            # within a century of J2000, where the unreduced longitude is small and the direct-sum clause is sharp
+            check_near_pair(cx, p, rng.uniform(2415020.0, 2488070.0), NEAR_DELTAS[k % len(NEAR_DELTAS)] * rng.uniform(0.8, 1.2))
         if thorough:
             # daily steps over one whole orbit from a random start, the cheap clauses only
             m, cls = cx.planet(p)
@@ -488,8 +526,9 @@ def search(rng, tier, deep):
     stats = {"evaluations": cx.n, "distinct_nontrivial": cx.nontriv,
              "rule": ("per planet (8): %d random + 5 fixed epochs in -2000..4000 with every clause (range of 5-6 variants, envelopes, "
                       "daily rate, Kepler agreement, exact direct sum, FK5/aberration/nutation form and size, element polynomials); "
-                      "%d bisected 0/360 crossings x 16 offsets of 0..40 arcsec; %d one-second steps; table constants%s"
-                      % (n_epochs, n_seams, n_cont, "; daily steps over one whole orbit" if thorough else "")),
+                      "%d bisected 0/360 crossings x 16 offsets of 0..40 arcsec; %d one-second steps; %d pairs of instants 0.1 ms .. 26 s apart "
+                      "evaluated one after the other, each against the direct sum at its own instant; table constants%s"
+                      % (n_epochs, n_seams, n_cont, n_near, "; daily steps over one whole orbit" if thorough else "")),
              "samples": [{"input": {"planet": "Venus", "jde": 2448976.5}, "checked": "all per-epoch clauses"}],
              "finding_counts": cx.keys}
     return cx.findings, stats
